@@ -176,8 +176,8 @@ func (p *c07) Run(c fw.Case, r *fw.Rec) {
 	}
 	for _, e := range res.ErrList {
 		m := reErrPos.FindStringSubmatch(e)
-		if m == nil {
-			continue
+		if m == nil || strings.ContainsAny(m[1], " \t`\"") || !strings.Contains(m[1], ".") {
+			continue // not a file:line:col prefix (e.g. a line of source text quoted inside a multi-line message)
 		}
 		r.Cover("error-positions-checked")
 		fname := strings.TrimPrefix(m[1], "/p/")
